@@ -11,6 +11,7 @@ import Gzx.Gen.K17
 import Gzx.KernelGuard
 import Gzx.Proofs.K17c
 import Gzx.Obligations.K17c
+import Gzx.Proofs.K08c
 namespace Gzx.Obligations.K17d
 open Gzx Gzx.GoM Gzx.Bits Gzx.GoVal Gzx.Binarizer Gzx.K17 Gzx.K17b Gzx.K17c Gzx.Obligations.K17Hyb Gzx.Obligations.K17c
 
@@ -267,5 +268,198 @@ theorem k_scan_eq (lum : List Nat) (w xo yo fuel : Nat) (hf : 10 ≤ fuel) :
   unfold scanBlock
   rw [List.range_eq_range']
   cases mapME (blockRow lum.toArray w xo yo) (List.range' 0 8) <;> rfl
+
+/-! ## the table of black points -/
+
+/-- the Go table between two rows: `done` complete rows, nil rows below -/
+def tableB (subH : Nat) (done : List (List Nat)) : List (List Int) := rows2 done ++ List.replicate (subH - done.length) []
+
+/-- … while row `done.length` is being filled: its computed prefix `acc`, zeros behind -/
+def tableOf (subW subH : Nat) (done : List (List Nat)) (acc : List Nat) : List (List Int) :=
+  rows2 done ++ (bytes acc ++ List.replicate (subW - acc.length) 0) :: List.replicate (subH - done.length - 1) []
+
+theorem rows2_length (done : List (List Nat)) : (rows2 done).length = done.length := by simp [rows2]
+
+theorem idxRow_cur (subW subH : Nat) (done : List (List Nat)) (acc : List Nat) :
+    idxRow (tableOf subW subH done acc) ((done.length : Nat) : Int) = .ok (bytes acc ++ List.replicate (subW - acc.length) 0) := by
+  unfold idxRow tableOf
+  have h0 : ¬ (((done.length : Nat) : Int) < 0) := by omega
+  simp only [h0, if_false, Int.toNat_natCast]
+  rw [List.getElem?_append_right (by rw [rows2_length]; exact Nat.le_refl _), rows2_length, Nat.sub_self]
+  rfl
+
+theorem idxRow_prev (subW subH : Nat) (done : List (List Nat)) (acc : List Nat) (i : Nat) (hi : i < done.length) :
+    idxRow (tableOf subW subH done acc) ((i : Nat) : Int) = .ok (bytes done[i]) := by
+  unfold idxRow tableOf
+  have h0 : ¬ (((i : Nat) : Int) < 0) := by omega
+  simp only [h0, if_false, Int.toNat_natCast]
+  rw [List.getElem?_append_left (by rw [rows2_length]; exact hi)]
+  simp [rows2, hi]
+
+theorem setRow_cur (subW subH : Nat) (done : List (List Nat)) (acc : List Nat) (r : List Int) :
+    setRow (tableOf subW subH done acc) ((done.length : Nat) : Int) r =
+      .ok (rows2 done ++ r :: List.replicate (subH - done.length - 1) []) := by
+  unfold setRow tableOf
+  have h0 : ¬ (((done.length : Nat) : Int) < 0) := by omega
+  simp only [h0, if_false, Int.toNat_natCast]
+  have hl : done.length < (rows2 done ++ (bytes acc ++ List.replicate (subW - acc.length) 0) ::
+      List.replicate (subH - done.length - 1) []).length := by simp [rows2_length]
+  simp only [hl, if_true]
+  congr 1
+  rw [List.set_append_right _ _ (by rw [rows2_length]; exact Nat.le_refl _), rows2_length, Nat.sub_self]
+  rfl
+
+/-- `blackPoints[y][x] = v` for the next cell of the current row (after the row was fetched) -/
+theorem table_write' (subW subH : Nat) (done : List (List Nat)) (acc : List Nat) (hx : acc.length < subW) (v : Nat) :
+    (tryC (setIdx (bytes acc ++ List.replicate (subW - acc.length) 0) ((acc.length : Nat) : Int) ((v : Nat) : Int)) fun t13 =>
+      tryC (setRow (tableOf subW subH done acc) ((done.length : Nat) : Int) t13) fun t14 =>
+      (Ctl.next t14 : Ctl (List (List Int)) (List (List Int)))) = .next (tableOf subW subH done (acc ++ [v])) := by
+  have hl : acc.length < (bytes acc ++ List.replicate (subW - acc.length) (0 : Int)).length := by simp [bytes]; omega
+  rw [K08c.setIdx_nat _ _ _ hl]
+  simp only [tryC_ok]
+  rw [setRow_cur]
+  simp only [tryC_ok]
+  congr 1
+  unfold tableOf
+  congr 2
+  have e1 : (bytes acc).length = acc.length := by simp [bytes]
+  rw [List.set_append_right _ _ (by rw [e1]; exact Nat.le_refl _), e1, Nat.sub_self]
+  obtain ⟨k, hk⟩ : ∃ k, subW - acc.length = k + 1 := ⟨subW - acc.length - 1, by omega⟩
+  rw [hk, List.replicate_succ, List.set_cons_zero]
+  have e2 : subW - (acc ++ [v]).length = k := by simp; omega
+  rw [e2]
+  simp [bytes]
+
+/-- `blackPoints[y][x] = v` for the next cell of the current row -/
+theorem table_write (subW subH : Nat) (done : List (List Nat)) (acc : List Nat) (hx : acc.length < subW) (v : Nat) :
+    (tryC (idxRow (tableOf subW subH done acc) ((done.length : Nat) : Int)) fun t12 =>
+      tryC (setIdx t12 ((acc.length : Nat) : Int) ((v : Nat) : Int)) fun t13 =>
+      tryC (setRow (tableOf subW subH done acc) ((done.length : Nat) : Int) t13) fun t14 =>
+      (Ctl.next t14 : Ctl (List (List Int)) (List (List Int)))) = .next (tableOf subW subH done (acc ++ [v])) := by
+  rw [idxRow_cur]
+  simp only [tryC_ok]
+  exact table_write' subW subH done acc hx v
+
+/-- one block of the model: the scan, the neighbours (present from the second row / column on), the black point -/
+def bpStep (lum : List Nat) (w h : Nat) (done : List (List Nat)) (acc : List Nat) : Res Nat :=
+  match scanBlock lum.toArray w (blockOffset acc.length w) (blockOffset done.length h) with
+  | .error e => .error e
+  | .ok s =>
+    match neighboursOf done.getLast? acc acc.length with
+    | .error e => .error e
+    | .ok nb => .ok (blockBlackPoint s nb)
+
+theorem idx_cur_prefix (subW : Nat) (acc : List Nat) (i : Nat) (hi : i < acc.length) :
+    idx (bytes acc ++ List.replicate (subW - acc.length) 0) ((i : Nat) : Int) = .ok ((acc[i] : Nat) : Int) := by
+  rw [idx_ofNat _ _ (by simp [bytes]; omega)]
+  congr 1
+  rw [List.getElem_append_left (by simp [bytes]; exact hi)]
+  simp [bytes]
+
+when_kernel Gzx.Gen.K17.calculateBlackPoints in
+/-- **one block of `calculateBlackPoints`**: scan, default estimate `sum >> 6`, the low-contrast rule `min / 2` corrected by the
+    neighbours `(bp[y-1][x] + 2·bp[y][x-1] + bp[y-1][x-1]) / 4`, and the write into the table -/
+theorem k_cbp_block (lum : List Nat) (w h subW subH fuel : Nat) (hw : 8 ≤ w) (hh : 8 ≤ h) (hf : 10 ≤ fuel)
+    (done : List (List Nat)) (acc : List Nat) (hrows : ∀ r ∈ done, r.length = subW) (hx : acc.length < subW) :
+    Gen.K17.calculateBlackPoints_body2 fuel (bytes lum) (w : Int) ((w : Int) - 8) ((done.length : Nat) : Int)
+        ((blockOffset done.length h : Nat) : Int) ((acc.length : Nat) : Int) (tableOf subW subH done acc) =
+      match bpStep lum w h done acc with
+      | .ok v => .next (tableOf subW subH done (acc ++ [v]))
+      | .error _ => .panic oob := by
+  simp only [Gen.K17.calculateBlackPoints_body2, bpStep]
+  rw [blockOffset_cast acc.length w hw]
+  have eoff : ((blockOffset done.length h : Nat) : Int) * (w : Int) + ((blockOffset acc.length w : Nat) : Int) =
+      (((blockOffset done.length h * w + blockOffset acc.length w : Nat)) : Int) := by
+    simp only [Int.natCast_add, Int.natCast_mul]
+  rw [eoff]
+  obtain ⟨yyf, offf, hscan⟩ := k_scan_eq lum w (blockOffset acc.length w) (blockOffset done.length h) fuel hf
+  rw [hscan]
+  cases scanBlock lum.toArray w (blockOffset acc.length w) (blockOffset done.length h) with
+  | error e => rfl
+  | ok s =>
+    simp only [brk_thenC]
+    have eavg : ishr ((s.sum : Nat) : Int) 6 = ((s.sum / 64 : Nat) : Int) := by
+      rw [show (6 : Int) = ((6 : Nat) : Int) from rfl, ishr_natCast, Nat.shiftRight_eq_div_pow]
+    have ehalf : Int.tdiv ((s.mn : Nat) : Int) 2 = ((s.mn / 2 : Nat) : Int) := by
+      rw [show (2 : Int) = ((2 : Nat) : Int) from rfl, tdiv_natCast]
+    have hcP : ((((s.mx : Nat) : Int) - ((s.mn : Nat) : Int)) ≤ 24) = (s.mx - s.mn ≤ MIN_DYNAMIC_RANGE) := by
+      unfold MIN_DYNAMIC_RANGE; exact propext (by omega)
+    simp only [eavg, ehalf, hcP, blockBlackPoint]
+    by_cases hlow : s.mx - s.mn ≤ MIN_DYNAMIC_RANGE
+    · simp only [hlow, decide_true, if_true]
+      by_cases hy : done.length = 0
+      · -- first row: no neighbours
+        have hd : done = [] := List.eq_nil_of_length_eq_zero hy
+        subst hd
+        have hb : ((decide ((((([] : List (List Nat)).length : Nat)) : Int) > 0)) && (decide (((acc.length : Nat) : Int) > 0))) = false := by
+          simp
+        simp only [hb, Bool.false_eq_true, if_false, List.getLast?_nil, neighboursOf]
+        exact table_write subW subH [] acc hx (s.mn / 2)
+      · by_cases hx0 : acc.length = 0
+        · have hb : ((decide (((done.length : Nat) : Int) > 0)) && (decide (((acc.length : Nat) : Int) > 0))) = false := by
+            rw [hx0]; simp
+          have hgl : done.getLast? = some done[done.length - 1] := by
+            rw [List.getLast?_eq_getElem?, List.getElem?_eq_getElem (by omega)]
+          simp only [hb, Bool.false_eq_true, if_false]
+          simp only [hgl, neighboursOf, neighbours]
+          rw [if_pos hx0]
+          exact table_write subW subH done acc hx (s.mn / 2)
+        · -- three neighbours
+          have hb : ((decide (((done.length : Nat) : Int) > 0)) && (decide (((acc.length : Nat) : Int) > 0))) = true := by
+            simp only [Bool.and_eq_true, decide_eq_true_eq]; omega
+          have hgl : done.getLast? = some done[done.length - 1] := by
+            rw [List.getLast?_eq_getElem?, List.getElem?_eq_getElem (by omega)]
+          have hprl : (done[done.length - 1]'(by omega)).length = subW := hrows _ (List.getElem_mem _)
+          simp only [hb, if_true, hgl, neighboursOf, neighbours, hx0, if_false]
+          rw [show ((done.length : Nat) : Int) - 1 = ((done.length - 1 : Nat) : Int) by omega,
+            show ((acc.length : Nat) : Int) - 1 = ((acc.length - 1 : Nat) : Int) by omega,
+            idxRow_prev subW subH done acc (done.length - 1) (by omega), idxRow_cur]
+          simp only [tryC_ok]
+          rw [idx_cur_prefix subW acc (acc.length - 1) (by omega), bytes, idx_bytes, idx_bytes]
+          rw [List.getElem?_eq_getElem (by omega : acc.length < (done[done.length - 1]'(by omega)).length),
+            List.getElem?_eq_getElem (by omega : acc.length - 1 < (done[done.length - 1]'(by omega)).length),
+            List.getElem?_eq_getElem (by omega : acc.length - 1 < acc.length)]
+          simp only [tryC_ok]
+          have eavgN : Int.tdiv ((((done[done.length - 1]'(by omega))[acc.length]'(by omega) : Nat) : Int) +
+              2 * ((acc[acc.length - 1]'(by omega) : Nat) : Int) +
+              (((done[done.length - 1]'(by omega))[acc.length - 1]'(by omega) : Nat) : Int)) 4 =
+              ((((done[done.length - 1]'(by omega))[acc.length]'(by omega) + 2 * acc[acc.length - 1]'(by omega) +
+                (done[done.length - 1]'(by omega))[acc.length - 1]'(by omega)) / 4 : Nat) : Int) := by
+            rw [show (4 : Int) = ((4 : Nat) : Int) from rfl, ← tdiv_natCast]
+            congr 1
+          rw [eavgN]
+          have hltP : ((((s.mn : Nat) : Int)) < ((((done[done.length - 1]'(by omega))[acc.length]'(by omega) +
+              2 * acc[acc.length - 1]'(by omega) + (done[done.length - 1]'(by omega))[acc.length - 1]'(by omega)) / 4 : Nat) : Int)) =
+              (s.mn < ((done[done.length - 1]'(by omega))[acc.length]'(by omega) + 2 * acc[acc.length - 1]'(by omega) +
+                (done[done.length - 1]'(by omega))[acc.length - 1]'(by omega)) / 4) := propext (by omega)
+          simp only [hltP]
+          by_cases hlt : s.mn < ((done[done.length - 1]'(by omega))[acc.length]'(by omega) + 2 * acc[acc.length - 1]'(by omega) +
+              (done[done.length - 1]'(by omega))[acc.length - 1]'(by omega)) / 4
+          · simp only [hlt, decide_true, if_true]
+            exact table_write' subW subH done acc hx _
+          · simp only [hlt, decide_false, Bool.false_eq_true, if_false]
+            exact table_write' subW subH done acc hx _
+    · simp only [hlow, decide_false, Bool.false_eq_true, if_false]
+      -- the neighbours are not looked at; the model computes them first: they never fail here
+      have hnb : ∃ nb, neighboursOf done.getLast? acc acc.length = .ok nb := by
+        by_cases hy : done.length = 0
+        · have hd : done = [] := List.eq_nil_of_length_eq_zero hy
+          subst hd; exact ⟨none, rfl⟩
+        · have hgl : done.getLast? = some done[done.length - 1] := by
+            rw [List.getLast?_eq_getElem?, List.getElem?_eq_getElem (by omega)]
+          have hprl : (done[done.length - 1]'(by omega)).length = subW := hrows _ (List.getElem_mem _)
+          rw [hgl]
+          simp only [neighboursOf, neighbours]
+          by_cases hx0 : acc.length = 0
+          · exact ⟨none, by simp [hx0]⟩
+          · simp only [hx0, if_false]
+            rw [List.getElem?_eq_getElem (by omega : acc.length < (done[done.length - 1]'(by omega)).length),
+              List.getElem?_eq_getElem (by omega : acc.length - 1 < (done[done.length - 1]'(by omega)).length),
+              List.getElem?_eq_getElem (by omega : acc.length - 1 < acc.length)]
+            exact ⟨_, rfl⟩
+      obtain ⟨nb, hnb⟩ := hnb
+      rw [hnb]
+      simp only []
+      exact table_write subW subH done acc hx _
 
 end Gzx.Obligations.K17d
